@@ -75,10 +75,12 @@ def check_dispatch(ctx, oid="C08.1"):
     for L in (range(2, 41) if ctx.thorough else (2, 3, 19, 20, 21, 31, 32, 33, 39, 40)):
         bad = []
         for wv in vers:
+            if wv == 0 and L not in (20, 32):
+                continue  # not a valid segwit address: version 0 programs are 20 or 32 bytes
             for hrp in (b"bc", b"tb", b"bcrt"):
                 prog = tm.sized("program", L)
                 ev.assumptions = {isp: False, isb: False, iss: True, iss2: True}
-                ev.bind = {seg: (hrp, wv, prog)}
+                ev.bind = {seg: (hrp, wv, prog), tm.app("bits.utils.decode_segwit_addr", [data], ty=tm.TUPLE): (hrp, wv, prog)}
                 kind, val = rules.strict_outcome(ev.run(fi))
                 want = tm.cat([bytes([0x00 if wv == 0 else 0x50 + wv, L]), prog])
                 if not (kind == "return" and tm.veq(val, want)):
@@ -86,9 +88,11 @@ def check_dispatch(ctx, oid="C08.1"):
         R.check(oid, "DECISION-TABLE", fi, "valid segwit address, program length %d, versions %s -> OP_v push(program)" % (L, "0..16" if ctx.thorough else "0,1,2,15,16"), not bad,
                 "a valid version-%s %s address with a %d-byte program maps to %s %s" % ((bad[0][0], bad[0][1].decode(), L, bad[0][2], tm.show(bad[0][3])[:120]) if bad else ("", "", L, "", "")),
                 example="a valid version-1..16 address with a %d-byte program" % L)
-    ev.bind = {}
+    refusal = T("raise", ("AssertionError",))  # the decoder refuses what is not a segwit address
+    ev.bind = {seg: refusal, tm.app("bits.utils.decode_segwit_addr", [data], ty=tm.TUPLE): refusal}
     ev.assumptions = {isp: False, isb: False, iss: False, iss2: False}
     kind, val = rules.strict_outcome(ev.run(fi))
+    ev.bind = {}
     R.check(oid, "DECISION-TABLE", fi, "none of key / Base58Check / segwit -> error", kind == "raise", "unclassifiable input maps to %s %s" % (kind, tm.show(val)[:100]))
     ev.assumptions = {}
 
